@@ -340,3 +340,19 @@ package openapi3
 //@   ensures [accepts-conforming] ((forall j int :: 0 <= j && j < len(parameters) ==> paramRefOK(parameters[j])) && (forall a int, b int :: 0 <= a && a < b && b < len(parameters) ==> !sameParam(parameters[a], parameters[b]))) ==> result == nil
 //@   option safety-tags none
 //@   tag C04
+
+// ---- C04: operation ids are unique across the whole paths object
+//@ spec opAt(paths *Paths, p string, m string) *Operation := paths.m[p] == nil ? nil : opOf(paths.m[p], m)
+//@ spec hasOpID(paths *Paths, p string, m string) bool := has(paths.m, p) && knownMethod(m) && opAt(paths, p, m) != nil && opAt(paths, p, m).OperationID != ""
+//@ spec endpointOf(p string, m string) string := concat(concat(m, " "), p)
+//@ func (*Paths).validateUniqueOperationIDs
+//@   requires paths != nil
+//@   modifies nothing
+//@   loop 0 invariant fresh(operationIDs) && operationIDs != nil
+//@   loop 0 invariant forall p string, m string :: seen(p) && hasOpID(paths, p, m) ==> has(operationIDs, opAt(paths, p, m).OperationID) && operationIDs[opAt(paths, p, m).OperationID] == endpointOf(p, m)
+//@   loop 1 invariant fresh(operationIDs) && operationIDs != nil
+//@   loop 1 invariant forall p string, m string :: seenIn(0, p) && p != urlPath && hasOpID(paths, p, m) ==> has(operationIDs, opAt(paths, p, m).OperationID) && operationIDs[opAt(paths, p, m).OperationID] == endpointOf(p, m)
+//@   loop 1 invariant forall m string :: seen(m) && hasOpID(paths, urlPath, m) ==> has(operationIDs, opAt(paths, urlPath, m).OperationID) && operationIDs[opAt(paths, urlPath, m).OperationID] == endpointOf(urlPath, m)
+//@   ensures [duplicate-operation-id-rejected] result == nil ==> (forall p1 string, m1 string, p2 string, m2 string :: hasOpID(paths, p1, m1) && hasOpID(paths, p2, m2) && opAt(paths, p1, m1).OperationID == opAt(paths, p2, m2).OperationID ==> p1 == p2 && m1 == m2)
+//@   option safety-tags C20
+//@   tag C04
